@@ -4444,13 +4444,19 @@ EmitModVSib:
       if (rel_offset == 0 && (mod & 0x07u) != 0x06u) {
         writer.emit8(mod);
       }
-      else if (Support::is_int_n<8>(rel_offset)) {
-        writer.emit8(mod + 0x40);
-        writer.emit8(uint32_t(rel_offset));
-      }
       else {
-        writer.emit8(mod + 0x80);
-        writer.emit16u_le(uint32_t(rel_offset));
+        // EVEX compressed displacement (disp8*N) applies to 16-bit addressing as well.
+        uint32_t cd_shift = (opcode & Opcode::kCDSHL_Mask) >> Opcode::kCDSHL_Shift;
+        int32_t cd_offset = rel_offset >> cd_shift;
+
+        if (Support::is_int_n<8>(cd_offset) && rel_offset == int32_t(uint32_t(cd_offset) << cd_shift)) {
+          writer.emit8(mod + 0x40);
+          writer.emit8(uint32_t(cd_offset) & 0xFFu);
+        }
+        else {
+          writer.emit8(mod + 0x80);
+          writer.emit16u_le(uint32_t(rel_offset));
+        }
       }
     }
     else {
